@@ -176,6 +176,13 @@ func (p *Prog) writeSitesIn(f *ssa.Function) []ssa.CallInstruction {
 			if _, isGo := in.(*ssa.Go); isGo {
 				// still a call site
 			}
+			// a transparent helper is looked into: its own sites stand for the call
+			if h := rawStaticCallee(c); h != nil && isHelper(h) {
+				if inner := p.writeSitesIn(originFn(h)); len(inner) > 0 {
+					out = append(out, inner...)
+					return
+				}
+			}
 			for _, callee := range p.calleesAt(c) {
 				if isFileMutationPrim(callee) && !isStdStreamWrite(c) {
 					out = append(out, c)
@@ -750,6 +757,31 @@ func ruleP05MakeResultGuard(p *Prog, r *Report) {
 // is, or tested with every path of the non-nil edge returning a non-nil error.
 // Returns ("", how) when fine, (problem, "") otherwise.
 func (p *Prog) checkForwarding(fn *ssa.Function, e ssa.Value, errIdxOf func(*ssa.Return) int) (string, string) {
+	// an error that arises inside a transparent helper: it must be forwarded by the helper, and
+	// the helper's error result by fn
+	if inst, ok := e.(ssa.Instruction); ok && inst.Parent() != nil && inst.Parent() != fn {
+		h := inst.Parent()
+		top := h
+		for top.Parent() != nil {
+			top = top.Parent()
+		}
+		if top != fn && h == top && isHelper(h) {
+			if msg, _ := p.checkForwarding(h, e, errIdxOf); msg != "" {
+				return msg, ""
+			}
+			site := helperCallSite(h)
+			if site == nil {
+				return "the helper " + h.Name() + " has no unique call site", ""
+			}
+			ei := errResultIndex(site.Common().Signature())
+			e2 := resultOf(site, ei)
+			if ei < 0 || e2 == nil {
+				return "the error result of " + h.Name() + " is discarded", ""
+			}
+			msg, how := p.checkForwarding(site.Parent(), e2, errIdxOf)
+			return msg, how + " (through " + h.Name() + ")"
+		}
+	}
 	// directly returned?
 	direct := false
 	for _, ret := range returnsOf(fn) {
